@@ -367,13 +367,16 @@ void genTops(Rng& rng, CaseSpec& cs, int nx, int ny, int nz, bool gaps) {
     for (auto& v : dyv) v = pickLen(rng, style, 5, 200);
     const size_t area = (size_t)nx * ny, vol = area * nz;
     // DZ
-    int zform = (int)rng.below(4);       // 0 DZV, 1 DZ full layer-constant, 2 DZ full per cell, 3 DZ top layer only
+    int zform = (int)rng.below(5);       // 0 DZV, 1 DZ full layer-constant, 2 DZ full per cell, 3 DZ top layer only, 4 DZ for the upper m layers only
+    if (zform == 4 && nz < 3) zform = 2;
+    const int mUpper = zform == 4 ? 2 + (int)rng.below(nz - 2) : 0;    // 2 <= m < nz: the layers below repeat layer m (the layer above them)
     std::vector<double> dz(vol), dzv(nz);
     for (auto& v : dzv) v = pickLen(rng, style, 0.5, 20);
     for (int k = 0; k < nz; ++k) for (size_t c = 0; c < area; ++c) {
         if (zform <= 1) dz[k * area + c] = dzv[k];
         else if (zform == 2) dz[k * area + c] = pickLen(rng, style, 0.5, 20);
-        else dz[k * area + c] = k == 0 ? pickLen(rng, style, 0.5, 20) : dz[c];
+        else if (zform == 3) dz[k * area + c] = k == 0 ? pickLen(rng, style, 0.5, 20) : dz[c];
+        else dz[k * area + c] = k < mUpper ? pickLen(rng, style, 0.5, 20) : dz[(k - 1) * area + c];
     }
     // TOPS of the top layer
     std::vector<double> tops(vol);
@@ -432,6 +435,7 @@ void genTops(Rng& rng, CaseSpec& cs, int nx, int ny, int nz, bool gaps) {
     horizontal("DY", "DYV", dyv, 1);
     if (zform == 0) { putArray(o, "DZV", dzv); form += "DZV/"; }
     else if (zform == 3) { putArray(o, "DZ", std::vector<double>(dz.begin(), dz.begin() + area)); form += "DZ(top)/"; }
+    else if (zform == 4) { putArray(o, "DZ", std::vector<double>(dz.begin(), dz.begin() + (size_t)mUpper * area)); form += "DZ(upper-layers)/"; }
     else { putArray(o, "DZ", dz); form += "DZ(all)/"; }
     if (topsFull) { putArray(o, "TOPS", tops); form += gaps ? "TOPS(all,gaps)" : "TOPS(all)"; }
     else { putArray(o, "TOPS", std::vector<double>(tops.begin(), tops.begin() + area)); form += "TOPS(top)"; }
